@@ -1,0 +1,20 @@
+//go:build verif
+
+package stringutil
+
+// Contracts for the deductive verifier in /verif (govc); comments only.
+
+/*@
+func ContainsFold
+  loop 0
+    invariant safe_state: substrLen == len(substr) && -1 <= i
+    decreases len(s) + (i == -1 ? 0 : 1)
+
+func SplitTrimmed
+  loop 1
+    invariant safe_index: 0 <= i
+    decreases len(split) - i
+
+func WriteToBuilder
+  requires b != nil
+@*/
